@@ -1386,6 +1386,14 @@ class PVGTraversal():
             return -1
         if x_start_gain and y_start_gain:
             return -1 if sorted(x_start_gain)[0] > sorted(y_start_gain)[0] else 1
+
+        if x.cleavage_gain and not y.cleavage_gain:
+            return -1
+        if not x.cleavage_gain and y.cleavage_gain:
+            return 1
+        if x.cleavage_gain and y.cleavage_gain:
+            return -1 if sorted(x.cleavage_gain)[0] > sorted(y.cleavage_gain)[0] else 1
+
         return -1
 
     @staticmethod
@@ -1406,6 +1414,14 @@ class PVGTraversal():
             return 1
         if x_start_gain and y_start_gain:
             return -1 if sorted(x_start_gain)[0] > sorted(y_start_gain)[0] else 1
+
+        if x.cleavage_gain and not y.cleavage_gain:
+            return -1
+        if not x.cleavage_gain and y.cleavage_gain:
+            return 1
+        if x.cleavage_gain and y.cleavage_gain:
+            return -1 if sorted(x.cleavage_gain)[0] > sorted(y.cleavage_gain)[0] else 1
+
         return -1
 
     @staticmethod
@@ -1473,6 +1489,14 @@ class PVGTraversal():
             return 1
         if x_start_gain and y_start_gain:
             return -1 if sorted(x_start_gain)[0] > sorted(y_start_gain)[0] else 1
+
+        if x.cleavage_gain and not y.cleavage_gain:
+            return -1
+        if not x.cleavage_gain and y.cleavage_gain:
+            return 1
+        if x.cleavage_gain and y.cleavage_gain:
+            return -1 if sorted(x.cleavage_gain)[0] > sorted(y.cleavage_gain)[0] else 1
+
         return -1
 
     def comp_unknown_orf_keep_all_orfs(self, x:PVGCursor, y:PVGCursor) -> bool:
